@@ -282,6 +282,54 @@ fn deep_tuples() {
     kani::cover!(a != b && c != d);
 }
 
+/// Lent leaf whose `borrow()` issues, the first time it runs, a second (competing) request on the very tuple it is part of -
+/// the schedule "the loser runs between the winner's leaf 0 and leaf 2", made sequential and deterministic.
+struct Reenter {
+    value: u8,
+    entered: core::sync::atomic::AtomicBool,
+    loser_got_none: core::sync::atomic::AtomicBool,
+}
+
+type Triple = <Deep<(Owning<u8>, Lending<u8>, Owning<u8>)> as Kind>::Return;
+static TRIPLE: std::sync::Mutex<Option<&'static Triple>> = std::sync::Mutex::new(None);
+
+impl core::borrow::Borrow<u8> for Reenter {
+    fn borrow(&self) -> &u8 {
+        use core::sync::atomic::Ordering::SeqCst;
+        if !self.entered.swap(true, SeqCst) {
+            let t: Option<&'static Triple> = *TRIPLE.lock().unwrap();
+            if let Some(t) = t {
+                self.loser_got_none.store(t.output().is_none(), SeqCst);
+            }
+        }
+        &self.value
+    }
+}
+
+/// Deep tuple, single-use, two owned leaves around a lent one: a request that finds leaf 0 already moved out fails WITHOUT
+/// touching the later single-use leaves (frame of a failed request), so the request in progress that took leaf 0 still
+/// receives the whole value: delivered to exactly one requester under the interleaving above (C12).
+//@K props=C12 tier=quick label=full feat=std fn=deep::tuples::output[failed-request-frame]
+#[kani::proof]
+#[kani::unwind(3)]
+fn deep_tuple_failed_request_consumes_nothing() {
+    let (a, b, c): (u8, u8, u8) = (kani::any(), kani::any(), kani::any());
+    let gate = Reenter {
+        value: b,
+        entered: core::sync::atomic::AtomicBool::new(false),
+        loser_got_none: core::sync::atomic::AtomicBool::new(false),
+    };
+    let r: &'static Triple =
+        Box::leak(Box::new(once::<Deep<(Owning<u8>, Lending<u8>, Owning<u8>)>, (u8, Reenter, u8)>((a, gate, c))));
+    *TRIPLE.lock().unwrap() = Some(r);
+    match r.output() {
+        Some((x, y, z)) => assert!(x == a && *y == b && z == c),
+        None => assert!(false),
+    }
+    assert!(r.output().is_none());
+    kani::cover!(a != c);
+}
+
 macro_rules! deep_vec_harness {
     ($name:ident, $n:expr) => {
         /// Deep<Vec<Owning>> (K-bnd in the element count): same element count and order, same leaf values; after a single-use
